@@ -221,15 +221,19 @@ func cmdCheck(args []string) int {
 			confirmed := ""
 			var last Outcome
 			tries := g
-			if len(tries) > 4 {
-				tries = tries[:4]
+			maxTries := 4
+			if u.Sched != "" && u.Sched != "runtoblock" {
+				maxTries = 12 // native goroutine scheduling between two gates is not controlled: more models, more attempts
+			}
+			if len(tries) > maxTries {
+				tries = tries[:maxTries]
 			}
 			for _, v := range tries {
 				replays++
 				p, _ := writeReplay(spec, u, tc, v, v.Kind+":"+v.Msg, replays, filepath.Join("last", spec.ID))
 				attempts := 1
 				if u.Sched != "" && u.Sched != "runtoblock" {
-					attempts = 3
+					attempts = 5
 				}
 				for a := 0; a < attempts && confirmed == ""; a++ {
 					last = nb.run(p)
